@@ -173,13 +173,13 @@ fn raw_lib(g: &Graph, listing: &[usize]) -> raw::Library {
 fn gds_lib(g: &Graph, listing: &[usize], rng: &mut Rng) -> GdsLibrary {
     let mut lib = GdsLibrary::new("lib");
     for &i in listing {
-        let mut s = GdsStruct::new(format!("c{}", i));
+        let mut s = GdsStruct::new(gname(g, i));
         s.elems.push(GdsElement::GdsBoundary(GdsBoundary { layer: 1, datatype: 0, xy: GdsPoint::vec(&[(0, 0), (2, 0), (2, 2), (0, 2), (0, 0)]), ..Default::default() }));
         for &j in &g[i] {
             if rng.chance(1, 4) {
-                s.elems.push(GdsElement::GdsArrayRef(GdsArrayRef { name: format!("c{}", j), xy: [GdsPoint::new(0, 0), GdsPoint::new(20, 0), GdsPoint::new(0, 20)], cols: 2, rows: 2, ..Default::default() }));
+                s.elems.push(GdsElement::GdsArrayRef(GdsArrayRef { name: gname(g, j), xy: [GdsPoint::new(0, 0), GdsPoint::new(20, 0), GdsPoint::new(0, 20)], cols: 2, rows: 2, ..Default::default() }));
             } else {
-                s.elems.push(GdsElement::GdsStructRef(GdsStructRef { name: format!("c{}", j), xy: GdsPoint::new(3, 4), ..Default::default() }));
+                s.elems.push(GdsElement::GdsStructRef(GdsStructRef { name: gname(g, j), xy: GdsPoint::new(3, 4), ..Default::default() }));
             }
         }
         lib.structs.push(s);
@@ -215,8 +215,18 @@ fn tetris_lib(g: &Graph, listing: &[usize]) -> layout21tetris::library::Library 
     }
     lib
 }
+/// Node index from a generated name: its trailing digits
 fn idx_of(name: &str) -> usize {
-    name[1..].parse().unwrap_or(usize::MAX)
+    let digits: String = name.chars().rev().take_while(|c| c.is_ascii_digit()).collect::<String>().chars().rev().collect();
+    digits.parse().unwrap_or(usize::MAX)
+}
+/// GDSII structure names: `c<i>`, or (graphs with an odd number of edges) long names that all share their first 40 characters
+fn gname(g: &Graph, i: usize) -> String {
+    if g.iter().map(|v| v.len()).sum::<usize>() % 2 == 1 {
+        format!("sky130_fd_pr__rf_nfet_01v8_lvt_aM02W1p65_variant_L0p{}", i)
+    } else {
+        format!("c{}", i)
+    }
 }
 
 fn random_dag(rng: &mut Rng, n: usize, density: u64) -> Graph {
@@ -332,6 +342,37 @@ impl C17 {
                 match judge(g, listing, Some(&seq)) {
                     Err(w) => cx.violation(&format!("{}|raw-deporder|{}", class, w), json!({"graph": g, "listing": listing, "result": seq})),
                     Ok(()) => cx.count("raw_orderings_valid"),
+                }
+            }
+        }
+        // Two DIFFERENT cells that carry the same name (an abstract-only cell from a LEF next to the layout cell from a GDSII file):
+        // they are distinct items and each must be ordered exactly once. Identified by pointer, not by name.
+        if !listing.is_empty() && !has_cycle(g, &reachable(g, listing)) {
+            cx.eval();
+            let mut lib2 = raw_lib(g, listing);
+            let name = lib2.cells[0].read().unwrap().name.clone();
+            let mut twin_cell = raw::Cell::new(name.clone());
+            twin_cell.abs = Some(raw::Abstract::new(name, raw::Polygon { points: vec![raw::Point::new(0, 0), raw::Point::new(1, 0), raw::Point::new(1, 1), raw::Point::new(0, 1)] }));
+            let twin = Ptr::new(twin_cell);
+            if listing.len() % 2 == 0 {
+                lib2.cells.push(twin.clone());
+                lib2.cells.rotate_right(1);
+            } else {
+                lib2.cells.push(twin.clone());
+            }
+            match guard(|| raw::DepOrder::order(&lib2)) {
+                Err(c) => cx.violation(&format!("{}|raw-deporder|same-name-twin|panic|{}", class, c.norm_msg()), json!({"graph": g, "listing": listing, "panic": c.msg})),
+                Ok(cells) => {
+                    let twins = cells.iter().filter(|c| **c == twin).count();
+                    let seq: Vec<usize> = cells.iter().filter(|c| **c != twin).map(|c| idx_of(&c.read().unwrap().name)).collect();
+                    if twins != 1 {
+                        cx.violation(&format!("{}|raw-deporder|same-name-twin|listed-{}-times", class, twins.min(2)), json!({"graph": g, "listing": listing}));
+                    } else {
+                        match judge(g, listing, Some(&seq)) {
+                            Err(w) => cx.violation(&format!("{}|raw-deporder|same-name-twin|{}", class, w), json!({"graph": g, "listing": listing, "result": seq})),
+                            Ok(()) => cx.count("raw_orderings_with_same_name_twin_valid"),
+                        }
+                    }
                 }
             }
         }
